@@ -101,6 +101,7 @@ class Ref:
         self.rxq = []
         self.claim_until = [None] * self.ndev
         self.retry = [{126996: None, 126998: None} for _ in range(self.ndev)]
+        self.names = [device_name(i) for i in range(self.ndev)]
         self.handler = cfg.get('iso')           # None = no application handler
         self.ev = []
         self.lenient_notes = False
@@ -170,7 +171,7 @@ class Ref:
         if self.claiming(k):
             return                              # no request is answered while the address claim is pending
         if p == 60928:
-            self.send(k, 60928, 255, le(device_name(k), 8), False)
+            self.send(k, 60928, 255, le(self.names[k], 8), False)
         elif p == 126464:
             txl = (DEF_TX + self.cfg.get('tx%d' % k, []))[:MAX_LIST]
             rxl = (DEF_RX + self.cfg.get('rx%d' % k, []))[:MAX_LIST]
@@ -237,12 +238,51 @@ class Ref:
             k = int(o[1])
             if 0 <= k < self.ndev and self.mode in (1, 2):
                 self.claim_until[k] = None
-                self.send(k, 60928, 255, le(device_name(k), 8), False)
+                self.send(k, 60928, 255, le(self.names[k], 8), False)
                 self.claim_until[k] = self.now + 250
         elif o[0] == 'R':
             self.rxq.append((int(o[1], 16), int(o[2]), list(bytes.fromhex(o[3]))))
         elif o[0] == 'P':
             self.poll()
+        elif o[0] == 'D' and len(o) >= 7:
+            # SetDeviceInformation(unique, function, class, manufacturer, industry, iDev): the NAME the next address claims carry
+            i, uq, fn, cl, mf, ig = (int(x) for x in o[1:7])
+            if 0 <= i < self.ndev:
+                nm = self.names[i]
+                if mf != 65535:
+                    nm = (nm & ~(0x7ff << 21)) | ((mf & 0x7ff) << 21)
+                if uq != 4294967295:
+                    nm = (nm & ~0x1fffff) | (uq & 0x1fffff)
+                if fn != 255:
+                    nm = (nm & ~(0xff << 40)) | ((fn & 0xff) << 40)
+                if cl != 255:
+                    nm = (nm & ~(0xff << 48)) | (((cl & 0x7f) << 1) << 48)
+                if ig != 255:
+                    nm = (nm & ~(0x7 << 60)) | ((ig & 7) << 60) | (1 << 63)
+                self.names[i] = nm
+        elif o[0] == 'Q' and len(o) >= 3 and self.mode in (1, 2, 3, 4):
+            # the public senders: the same answers without a request (no claim-window exemption: SendMsg refuses inside the window)
+            kind = o[1]
+            if kind in ('pi', 'ci'):
+                k = int(o[2])
+                if 0 <= k < self.ndev:
+                    if kind == 'ci' and self.cfg.get('noconf'):
+                        self.send(k, 59392, 255, [1, 255, 255, 255, 255] + le(126998, 3), False)
+                    else:
+                        self.send_info(k, 126996 if kind == 'pi' else 126998)
+            elif kind in ('tx', 'rx') and len(o) >= 5 and o[4] == '0':
+                dst, k = int(o[2]), int(o[3])
+                if dst == 255 and k == -1:
+                    k = 0
+                if 0 <= k < self.ndev:
+                    lst = ((DEF_TX + self.cfg.get('tx%d' % k, [])) if kind == 'tx' else (DEF_RX + self.cfg.get('rx%d' % k, [])))[:MAX_LIST]
+                    self.send(k, 126464, dst, [0 if kind == 'tx' else 1] + [b for q in lst for b in le(q, 3)], True)
+            elif kind == 'ac' and len(o) >= 5 and o[4] == '0':
+                dst, k = int(o[2]), int(o[3])
+                if dst == 255 and k == -1:
+                    k = 0
+                if 0 <= k < self.ndev:
+                    self.send(k, 60928, dst, le(self.names[k], 8), False)
         return self.ev
 
 
@@ -495,6 +535,39 @@ def gen(seed, tier):
                     ops += ['T %d' % (tgt - now), 'P']
                     now = tgt
         ops += ['T %d' % (10 * 255 + 200), 'P', 'P', 'T 3000', 'P']
+        cases.append(line + ' | ' + ' ; '.join(ops))
+    # 5c. the answers without a request: the application calls the public senders (SendProductInformation, SendConfigurationInformation,
+    #     SendTxPGNList / SendRxPGNList with a destination, SendIsoAddressClaim) and sets the device information at run time
+    #     (SetDeviceInformation: the next address claims carry the new NAME fields); valid, negative and too large device indices; inside
+    #     and outside claim windows; blocked bus with retries
+    for _ in range(30 * N):
+        line, ndev, src0, mode = cfg_line(r, ndev=r.choice([1, 2, 3]), mode=r.choice([1, 1, 2]))
+        own = [own_addr(src0, i) for i in range(ndev)]
+        ops = []
+        for _k in range(r.randint(4, 9)):
+            i = r.choice(list(range(ndev)) * 3 + [-1, ndev])
+            x = r.random()
+            if x < 0.2:
+                ops.append('D %d %d %d %d %d %d' % (i, r.choice([4294967295, 0, 5, 2097151, 123456]), r.choice([255, 0, 130, 140]), r.choice([255, 0, 25, 75, 127]),
+                                                    r.choice([65535, 0, 275, 2046, 2047]), r.choice([255, 0, 4, 7])))
+                ops += [req(r, 50, r.choice(own + [255]), 60928), 'P']
+            elif x < 0.35:
+                ops.append('Q ac %d %d 0' % (r.choice([255, 50]), i))
+            elif x < 0.5:
+                ops.append('Q pi %d' % i)
+            elif x < 0.65:
+                ops.append('Q ci %d' % i)
+            elif x < 0.8:
+                ops.append('Q %s %d %d 0' % (r.choice(['tx', 'rx']), r.choice([255, 50, 77]), i))
+            elif x < 0.88:
+                ops += ['C %d' % r.randrange(ndev), 'T %d' % r.choice([0, 100, 249, 252])]
+            elif x < 0.94:
+                ops += ['A ' + '0' * r.choice([3, 30]), 'Q pi %d' % r.randrange(ndev), 'P', 'A', 'T %d' % (10 * 255 + 200), 'P', 'P']
+            else:
+                ops += [req(r, 51, r.choice(own + [255]), pick_pgn(r)), 'P']
+            if r.random() < 0.4:
+                ops.append('P')
+        ops += ['A', 'T 3000', 'P', 'P']
         cases.append(line + ' | ' + ' ; '.join(ops))
     # 6. devices without a valid address (252, 253, 254): only the address claim may be sent
     #    (254 is not configured: Open() replaces the null address by a free one)
